@@ -88,6 +88,7 @@ pub fn validity(g: &Grid) -> Option<(usize, usize)> {
 
 impl UnitRunner for C11 {
   fn unit(&mut self, _payload: &str, unit: u64, out: &mut WorkerOut) {
+    if _payload == "contexts" { return context_unit(unit, out); }
     let g = &self.gs[unit as usize];
     let nblocks: usize = g.iter().map(|r| r.len()).sum();
     // one dispatch arm per kind: the smallest grids (up to two blocks; three in the thorough tier) run for every kind
@@ -185,7 +186,33 @@ impl Check for C11 {
     rep.cov("bounds", json!({"grids": n}));
     let gs = self.gs.clone();
     rep.describe = Some(Box::new(move |_p, u| ("concat".to_string(), format!("grid {:?}", gs[u as usize]))));
-    drive_ranges(cfg, rep, range_jobs("", n, 8));
+    let mut jobs = range_jobs("", n, 8);
+    jobs.extend(range_jobs("contexts", 6, 1));
+    drive_ranges(cfg, rep, jobs);
     if rep.out.sets.get("concat_steps").map(|s| s.len()).unwrap_or(0) < 3 { rep.vacuity.push("fewer than 3 concatenation functions reached".into()); }
   }
+}
+
+/// Matrix literals whose blocks are bound locally (function parameters, match-arm bindings, comprehension generators; every local shadowed by a
+/// global of another value): scalar blocks in every context, vector / matrix blocks as function parameters and match bindings.
+fn context_unit(unit: u64, out: &mut WorkerOut) {
+  use crate::ctx::{lv, Tpl};
+  let kinds = ["f64", "u8", "string"];
+  let kind = kinds[(unit % 3) as usize];
+  let blocks = unit / 3 == 1;
+  let lit = |v: i64| match kind { "u8" => format!("{}u8", v), "string" => format!("\"s{}\"", v), _ => v.to_string() };
+  let mut s = Session::new();
+  for d in [format!("a := {}", lit(91)), format!("b := {}", lit(92)), format!("c := {}", lit(93))] { s.run(&d); }
+  let (ga, gb, gc) = if blocks { (format!("[{} {}]", lit(1), lit(2)), format!("[{} {}]", lit(3), lit(4)), format!("[{} {}; {} {}]", lit(5), lit(6), lit(7), lit(8))) } else { (lit(1), lit(2), lit(3)) };
+  for d in [format!("ga := {}", ga), format!("gb := {}", gb), format!("gc := {}", gc)] { if !s.run(&d).is_value() { out.count("context_setup_rejected"); return; } }
+  let pk = if blocks { format!("[{}]", kind) } else { kind.to_string() };
+  let forms: Vec<&str> = if blocks { vec!["[a b]", "[a; b]", "[a; b; a]", "[a b; b a]", "[a; c]", "[c; a]", "[c c]", "[a b; c c]", "[c; a; b]"] }
+    else { vec!["[a b]", "[a; b]", "[a b c]", "[a; b; c]", "[a b; c a]", "[a b c; c b a]", "[a; b; c; a]", "[a b c a]", "[a b c a b]", "[a; b; c; a; b]", "[b a; a b; c c]"] };
+  let tpls: Vec<Tpl> = forms.iter().map(|f| {
+    let tok = |name: &str| f.split(|ch: char| !ch.is_alphanumeric()).any(|t| t == name);
+    let mut vars = vec![]; if tok("a") { vars.push(lv("a", "ga", &pk)); } if tok("b") { vars.push(lv("b", "gb", &pk)); } if tok("c") { vars.push(lv("c", "gc", &pk)); }
+    let top: String = f.chars().map(|ch| match ch { 'a' => "ga".to_string(), 'b' => "gb".to_string(), 'c' => "gc".to_string(), o => o.to_string() }).collect();
+    Tpl { local: f.to_string(), top, vars, scalar_operands: !blocks, set_ok: false, tag: format!("{}:{}{}", f, kind, if blocks { ":blocks" } else { "" }) }
+  }).collect();
+  crate::ctx::judge_templates("C11", &mut s, &tpls, 0, &format!("a, b, c := 91.. (globals); ga := {}; gb := {}; gc := {}", ga, gb, gc), out);
 }
